@@ -146,6 +146,17 @@ def tryLoadUnregistered (w : World) (s : St) (fpath : Str) : Except Err (St × B
   | .error .syntax => .ok (s, false)
   | .error e => .error e
 
+/-- one candidate Manifest name in a scanned directory: `for m in manifest_filenames: if m in filenames: …` -/
+def scanNameStep (w : World) (rel : Str) (filenames : List Str) (acc : ScanSt) (mname : Str) : Except Err ScanSt :=
+  if !filenames.contains mname then .ok acc
+  else
+    let fpath := pjoin rel mname
+    if acc.st.loaded.any (·.1 == fpath) then .ok acc
+    else match tryLoadUnregistered w acc.st fpath with
+      | .error e => .error e
+      | .ok (st', true) => .ok { acc with st := st', newManifests := acc.newManifests ++ [fpath] }
+      | .ok (st', false) => .ok { acc with st := st' }
+
 def scanDir (w : World) (ed : EntryDict) (ss : ScanSt) (sysPath rel : Str) (dev ino : Nat) (kids : List (Str × Node)) :
     Except Err (ScanSt × List Str) :=
   if devBad ss.st.dev? dev then .error (.crossDevice sysPath)
@@ -159,15 +170,7 @@ def scanDir (w : World) (ed : EntryDict) (ss : ScanSt) (sysPath rel : Str) (dev 
       let keep := dirnames.filter fun d => !isHidden d && (ddGet dirdict d).isNone
       let ids' := if keep.isEmpty then ss.ids else (ss.ids.filter (·.1 != sysPath)) ++ [(sysPath, parentIds ++ [(dev, ino)])]
       let ss1 : ScanSt := { ss with ids := ids' }
-      match foldE (fun (acc : ScanSt) (mname : Str) =>
-          if !filenames.contains mname then .ok acc
-          else
-            let fpath := pjoin rel mname
-            if acc.st.loaded.any (·.1 == fpath) then .ok acc
-            else match tryLoadUnregistered w acc.st fpath with
-              | .error e => .error e
-              | .ok (st', true) => .ok { acc with st := st', newManifests := acc.newManifests ++ [fpath] }
-              | .ok (st', false) => .ok { acc with st := st' }) ss1 manifestNames with
+      match foldE (scanNameStep w rel filenames) ss1 manifestNames with
       | .error e => .error e
       | .ok ss2 => .ok (ss2, keep)
 
@@ -232,42 +235,47 @@ structure DedupSt where
   st : St
   out : UDict := []
 
+/-- one entry of a Manifest in the de-duplication loop: the first entry for a path is kept, a later one is merged
+    into it and queued for removal -/
+def dedupEntryStep (path mp rel : Str) (acc : DedupSt × List Entry) (ie : IEntry) : Except Err (DedupSt × List Entry) :=
+  let (ds, toRemove) := acc
+  match ie.2 with
+  | .timestamp _ => .ok acc
+  | .file .DIST _ _ _ => .ok acc
+  | e =>
+    let full := pjoin rel e.fullPath
+    if !pathStartsWith full path then .ok acc
+    else match udGet ds.out full with
+      | none => .ok ({ ds with out := ds.out ++ [(full, mp, ie.1)] }, toRemove)
+      | some (_kmp, kid) =>
+        -- the kept entry as it is now
+        match ds.st.val kid with
+        | none => .error (.internal .other)
+        | some kept =>
+          match entryCompat kept e with
+          | .error err => .error err
+          | .ok .typeMismatch => .error .incompatible
+          | .ok _ =>
+            match mergeInto kept e with
+            | .error err => .error err
+            | .ok kept' =>
+              .ok ({ ds with st := ds.st.setVal kid kept' }, toRemove ++ [e])
+
+/-- `m.entries.remove(e)` -/
+def dedupRemoveStep (mp : Str) (cur : St) (x : Entry) : Except Err St :=
+  match cur.removeFirstEq mp x with
+  | none => .error (.internal .valueError)
+  | some r => .ok r
+
 /-- the body for one Manifest -/
 def dedupManifest (path : Str) (ds : DedupSt) (mp rel : Str) : Except Err DedupSt :=
-  let es := ds.st.entriesOf mp
-  match foldE (fun (acc : DedupSt × List Entry) (ie : IEntry) =>
-      let (ds, toRemove) := acc
-      match ie.2 with
-      | .timestamp _ => .ok acc
-      | .file .DIST _ _ _ => .ok acc
-      | e =>
-        let full := pjoin rel e.fullPath
-        if !pathStartsWith full path then .ok acc
-        else match udGet ds.out full with
-          | none => .ok ({ ds with out := ds.out ++ [(full, mp, ie.1)] }, toRemove)
-          | some (kmp, kid) =>
-            -- the kept entry as it is now
-            match ds.st.val kid with
-            | none => .error (.internal .other)
-            | some kept =>
-              match entryCompat kept e with
-              | .error err => .error err
-              | .ok .typeMismatch => .error .incompatible
-              | .ok _ =>
-                match mergeInto kept e with
-                | .error err => .error err
-                | .ok kept' =>
-                  .ok ({ ds with st := ds.st.setVal kid kept' }, toRemove ++ [e]))
-      (ds, []) es with
+  match foldE (dedupEntryStep path mp rel) (ds, []) (ds.st.entriesOf mp) with
   | .error e => .error e
   | .ok (ds1, toRemove) =>
     if toRemove.isEmpty then .ok ds1
     else
       -- `for e in entries_to_remove: m.entries.remove(e)`
-      match foldE (fun (cur : St) (x : Entry) =>
-          match cur.removeFirstEq mp x with
-          | none => .error (.internal .valueError)
-          | some r => .ok r) ds1.st toRemove with
+      match foldE (dedupRemoveStep mp) ds1.st toRemove with
       | .error e => .error e
       | .ok st' => .ok { ds1 with st := st'.markUpdated mp }
 
@@ -347,6 +355,122 @@ def isFileNode : Node → Bool
   | .dir _ _ _ => false
   | _ => true
 
+/-- `for d in dirnames`: hidden directories are skipped; a directory with an IGNORE entry is not scanned; any other
+    entry for a directory makes `update_entry_for_path` raise -/
+def updDirsStep (w : World) (o : Opts) (st : St) (rel : Str) (acc : UDict × List Str) (d : Str) : Except Err (UDict × List Str) :=
+  if isHidden d then .ok acc
+  else
+    let (hit, ud') := udPop acc.1 (pjoin rel d)
+    match hit with
+    | none => .ok (ud', acc.2 ++ [d])
+    | some (_mp, id) =>
+      match st.val id with
+      | none => .error (.internal .other)
+      | some (.ignore _) => .ok (ud', acc.2)
+      | some de =>
+        match objAt w (pjoin rel d) with
+        | .error e => .error e
+        | .ok ob => match refreshEntry ob (pjoin rel d) de (some o.hashes) st.dev? none with
+          | .error e => .error e
+          | .ok _ => .error (.internal .assertion)
+
+/-- `for f in filenames`: a listed file is refreshed in place (a MANIFEST entry pushes its Manifest on the stack), an
+    IGNOREd one skipped, an unlisted one gets a new entry (collected in `news`) -/
+def updFilesStep (w : World) (o : Opts) (newMs : List Str) (rel : Str)
+    (acc : St × UDict × List (Str × Str) × List NewEntry) (f : Str) : Except Err (St × UDict × List (Str × Str) × List NewEntry) :=
+  let (st, ud, stack, news) := acc
+  if isHidden f then .ok acc
+  else
+    let fpath := pjoin rel f
+    let (hit, ud') := udPop ud fpath
+    match hit with
+    | some (mp, id) =>
+      (match st.val id with
+       | none => .error (.internal .other)
+       | some (.ignore _) => .ok (st, ud', stack, news)
+       | some fe =>
+         (if fe.isManifest && !(st.loaded.any (·.1 == fpath)) then .error (.internal .key) else
+         let stack' := if fe.isManifest then stack ++ [(fpath, rel)] else stack
+         match objAt w fpath with
+         | .error e => .error e
+         | .ok ob => match refreshEntry ob fpath fe (some o.hashes) st.dev? o.lastMtime with
+           | .error e => .error e
+           | .ok (fe', changed) =>
+             let st1 := st.setVal id fe'
+             .ok (if changed then st1.markUpdated mp else st1, ud', stack', news)))
+    | none =>
+      if manifestNames.contains fpath then .ok (st, ud', stack, news)
+      else
+        let isNewM := newMs.contains fpath
+        (if isNewM && !(st.loaded.any (·.1 == fpath)) then .error (.internal .key) else
+        let stack' := if isNewM then stack ++ [(fpath, rel)] else stack
+        let tag := if isNewM then FTag.MANIFEST else entryType o.profile fpath
+        -- `new_manifest_entry(ftype, fpath, 0, {})`; for AUX the given path is the aux_path
+        let fe0 : Entry := .file tag fpath 0 []
+        match objAt w fpath with
+        | .error e => .error e
+        | .ok ob => match refreshEntry ob fpath fe0 (some o.hashes) st.dev? o.lastMtime with
+          | .error e => .error e
+          | .ok (fe', _) => .ok (st, ud', stack', news ++ [{ e := fe', isManifest := isNewM }]))
+
+/-- one default IGNORE path of a new Manifest: the accumulator holds the state, the paths that got an IGNORE entry
+    and the paths whose old entries were dropped -/
+def updIgnoreStep (w : World) (rel mp : Str) (acc : St × List Str × List Str) (ip : Str) : Except Err (St × List Str × List Str) :=
+  let iep := pjoin rel ip
+  match acc.1.load w iep false true with
+  | .error e => .error e
+  | .ok st' =>
+    -- repair of finding F26 (was `raise NotImplementedError`): the old file entries of the
+    -- now-ignored path are removed from the parent Manifests, by identity; a path that a
+    -- parent Manifest IGNOREs gets no second IGNORE
+    match dropOldEntries w iep st'.heap.length st' false with
+    | .error e => .error e
+    | .ok (st'', true, dr) => .ok (st'', acc.2.1, if dr then acc.2.2 ++ [iep] else acc.2.2)
+    | .ok (st'', false, dr) =>
+      .ok (st''.append mp (Entry.ignore ip), acc.2.1 ++ [iep], if dr then acc.2.2 ++ [iep] else acc.2.2)
+
+/-- a new Manifest for the directory when the profile wants one and none is on the stack for it: `create_manifest`
+    (an existing file there is loaded - and may fail to parse -, else a new empty one), then its default IGNOREs -/
+def updNewManifest (w : World) (o : Opts) (rel : Str) (st2 : St) (stack2 : List (Str × Str)) (news2 : List NewEntry) :
+    Except Err (St × List (Str × Str) × List NewEntry × List Str × List Str) :=
+  let mp := pjoin rel sManifest
+  let created : Except Err St :=
+    match loadOne w mp none with
+    | .ok es => .ok (st2.sync [(mp, es)])
+    | .error (.os .ENOENT) => .ok ((st2.sync [(mp, [])]).markUpdated mp)
+    | .error e => .error e
+  match created with
+  | .error e => .error e
+  | .ok st3 =>
+    match foldE (updIgnoreStep w rel mp) (st3, [], []) (ignorePaths o.profile rel) with
+    | .error e => .error e
+    | .ok (st4, newIgn, dropped) =>
+      .ok (st4, stack2 ++ [(mp, rel)], news2 ++ [{ e := Entry.file .MANIFEST mp 0 [], isManifest := true }], newIgn, dropped)
+
+/-- placing one new entry: a MANIFEST entry climbs to the Manifest one level up, any other goes into the Manifest on
+    top of the stack (an AUX entry outside `files/` of that Manifest becomes DATA) -/
+def updPlaceStep (stack5 : List (Str × Str)) (mpath mdir : Str) (newIgn : List Str) (st : St) (ne : NewEntry) : Except Err St :=
+  let fpath := match ne.e with | .file _ p _ _ => p | _ => []
+  if newIgn.contains fpath then .ok st
+  else match ne.e with
+    | .file .MANIFEST p n c =>
+      (match climb stack5 (dirname p) with
+       | .error e => .error e
+       | .ok (mmp, mmdir) =>
+         match relpath? p mmdir with
+         | none => .error .abstain
+         | some rp => .ok ((st.append mmp (Entry.file .MANIFEST rp n c)).markUpdated mmp))
+    | .file t p n c =>
+      (match relpath? p mdir with
+       | none => .error .abstain
+       | some rp =>
+         let e' : Entry :=
+           if t == .AUX then
+             (if pathInsideDir rp sFiles then Entry.file .AUX (rp.drop 6) n c else Entry.file .DATA rp n c)
+           else Entry.file t rp n c
+         .ok (st.append mpath e'))
+    | _ => .ok st
+
 def updateDirStep (w : World) (o : Opts) (newMs : List Str) (ws : WSt) (sysPath rel : Str) (dev ino : Nat)
     (kids : List (Str × Node)) : Except Err (WSt × List Str) :=
   if devBad ws.st.dev? dev then .error (.crossDevice sysPath)
@@ -360,99 +484,17 @@ def updateDirStep (w : World) (o : Opts) (newMs : List Str) (ws : WSt) (sysPath 
     let dirnames := (kids.filter (·.2.isDirNode)).map (·.1)
     let filenames := (kids.filter (!·.2.isDirNode)).map (·.1)
     let wantM := wantManifest o.profile rel dirnames filenames
-    -- directories: hidden skipped; IGNOREd skipped; any other entry makes update_entry_for_path raise
-    match foldE (fun (acc : UDict × List Str) (d : Str) =>
-        if isHidden d then .ok acc
-        else
-          let (hit, ud') := udPop acc.1 (pjoin rel d)
-          match hit with
-          | none => .ok (ud', acc.2 ++ [d])
-          | some (mp, id) =>
-            match ws.st.val id with
-            | none => .error (.internal .other)
-            | some (.ignore _) => .ok (ud', acc.2)
-            | some de =>
-              match objAt w (pjoin rel d) with
-              | .error e => .error e
-              | .ok ob => match refreshEntry ob (pjoin rel d) de (some o.hashes) ws.st.dev? none with
-                | .error e => .error e
-                | .ok _ => .error (.internal .assertion)) (ws.ud, []) dirnames with
+    match foldE (updDirsStep w o ws.st rel) (ws.ud, []) dirnames with
     | .error e => .error e
     | .ok (ud1, keep) =>
     let ids' := if keep.isEmpty then ws.ids else (ws.ids.filter (·.1 != sysPath)) ++ [(sysPath, parentIds ++ [(dev, ino)])]
-    -- files
-    match foldE (fun (acc : St × UDict × List (Str × Str) × List NewEntry) (f : Str) =>
-        let (st, ud, stack, news) := acc
-        if isHidden f then .ok acc
-        else
-          let fpath := pjoin rel f
-          let (hit, ud') := udPop ud fpath
-          match hit with
-          | some (mp, id) =>
-            (match st.val id with
-             | none => .error (.internal .other)
-             | some (.ignore _) => .ok (st, ud', stack, news)
-             | some fe =>
-               (if fe.isManifest && !(st.loaded.any (·.1 == fpath)) then .error (.internal .key) else
-               let stack' := if fe.isManifest then stack ++ [(fpath, rel)] else stack
-               match objAt w fpath with
-               | .error e => .error e
-               | .ok ob => match refreshEntry ob fpath fe (some o.hashes) st.dev? o.lastMtime with
-                 | .error e => .error e
-                 | .ok (fe', changed) =>
-                   let st1 := st.setVal id fe'
-                   .ok (if changed then st1.markUpdated mp else st1, ud', stack', news)))
-          | none =>
-            if manifestNames.contains fpath then .ok (st, ud', stack, news)
-            else
-              let isNewM := newMs.contains fpath
-              (if isNewM && !(st.loaded.any (·.1 == fpath)) then .error (.internal .key) else
-              let stack' := if isNewM then stack ++ [(fpath, rel)] else stack
-              let tag := if isNewM then FTag.MANIFEST else entryType o.profile fpath
-              -- `new_manifest_entry(ftype, fpath, 0, {})`; for AUX the given path is the aux_path
-              let fe0 : Entry := .file tag fpath 0 []
-              match objAt w fpath with
-              | .error e => .error e
-              | .ok ob => match refreshEntry ob fpath fe0 (some o.hashes) st.dev? o.lastMtime with
-                | .error e => .error e
-                | .ok (fe', _) => .ok (st, ud', stack', news ++ [{ e := fe', isManifest := isNewM }])))
-        (ws.st, ud1, stack0, []) filenames with
+    match foldE (updFilesStep w o newMs rel) (ws.st, ud1, stack0, []) filenames with
     | .error e => .error e
     | .ok (st2, ud2, stack2, news2) =>
     -- a new Manifest for this directory?
     let needNew := wantM && (stack2.getLast?.map (·.2)) != some rel
     let mkNew : Except Err (St × List (Str × Str) × List NewEntry × List Str × List Str) :=
-      if !needNew then .ok (st2, stack2, news2, [], [])
-      else
-        let mp := pjoin rel sManifest
-        -- `create_manifest`: an existing file there is loaded (and may fail to parse); else a new empty one
-        let created : Except Err St :=
-          match loadOne w mp none with
-          | .ok es => .ok (st2.sync [(mp, es)])
-          | .error (.os .ENOENT) => .ok ((st2.sync [(mp, [])]).markUpdated mp)
-          | .error e => .error e
-        match created with
-        | .error e => .error e
-        | .ok st3 =>
-          let ips := ignorePaths o.profile rel
-          -- `if self.find_path_entry(iep): raise NotImplementedError`
-          match foldE (fun (acc : St × List Str × List Str) (ip : Str) =>
-              let iep := pjoin rel ip
-              match acc.1.load w iep false true with
-              | .error e => .error e
-              | .ok st' =>
-                -- repair of finding F26 (was `raise NotImplementedError`): the old file entries of the
-                -- now-ignored path are removed from the parent Manifests, by identity; a path that a
-                -- parent Manifest IGNOREs gets no second IGNORE
-                match dropOldEntries w iep st'.heap.length st' false with
-                | .error e => .error e
-                | .ok (st'', true, dr) => .ok (st'', acc.2.1, if dr then acc.2.2 ++ [iep] else acc.2.2)
-                | .ok (st'', false, dr) =>
-                  .ok (st''.append mp (Entry.ignore ip), acc.2.1 ++ [iep], if dr then acc.2.2 ++ [iep] else acc.2.2))
-              (st3, [], []) ips with
-          | .error e => .error e
-          | .ok (st4, newIgn, dropped) =>
-            .ok (st4, stack2 ++ [(mp, rel)], news2 ++ [{ e := Entry.file .MANIFEST mp 0 [], isManifest := true }], newIgn, dropped)
+      if !needNew then .ok (st2, stack2, news2, [], []) else updNewManifest w o rel st2 stack2 news2
     match mkNew with
     | .error e => .error e
     | .ok (st5, stack5, news5, newIgn, dropped) =>
@@ -463,27 +505,7 @@ def updateDirStep (w : World) (o : Opts) (newMs : List Str) (ws : WSt) (sysPath 
       match stack5.getLast? with
       | none => .error (.internal .index)
       | some (mpath, mdir) =>
-        match foldE (fun (st : St) (ne : NewEntry) =>
-            let fpath := match ne.e with | .file _ p _ _ => p | _ => []
-            if newIgn.contains fpath then .ok st
-            else match ne.e with
-              | .file .MANIFEST p n c =>
-                (match climb stack5 (dirname p) with
-                 | .error e => .error e
-                 | .ok (mmp, mmdir) =>
-                   match relpath? p mmdir with
-                   | none => .error .abstain
-                   | some rp => .ok ((st.append mmp (Entry.file .MANIFEST rp n c)).markUpdated mmp))
-              | .file t p n c =>
-                (match relpath? p mdir with
-                 | none => .error .abstain
-                 | some rp =>
-                   let e' : Entry :=
-                     if t == .AUX then
-                       (if pathInsideDir rp sFiles then Entry.file .AUX (rp.drop 6) n c else Entry.file .DATA rp n c)
-                     else Entry.file t rp n c
-                   .ok (st.append mpath e'))
-              | _ => .ok st) st5 news5 with
+        match foldE (updPlaceStep stack5 mpath mdir newIgn) st5 news5 with
         | .error e => .error e
         | .ok st6 => .ok ({ ws with st := st6.markUpdated mpath, ud := ud2, stack := stack5, ids := ids' }, keep)
 
@@ -506,6 +528,17 @@ def updKids (w : World) (o : Opts) (newMs : List Str) (ws : WSt) (sysPath rel : 
     else updKids w o newMs ws sysPath rel keep rest
 end
 
+/-- `for relpath, (mpath, fe) in entry_dict.items(): if fe.tag != 'IGNORE': loaded_manifests[mpath].entries.remove(fe)` -/
+def updRemoveStep (st : St) (kv : Str × Str × Nat) : Except Err St :=
+  let (_, mp', id) := kv
+  match st.val id with
+  | none => .error (.internal .other)
+  | some (.ignore _) => .ok st
+  | some fe =>
+    match st.removeFirstEq mp' fe with
+    | none => .error (.internal .valueError)
+    | some st' => .ok (st'.markUpdated mp')
+
 /-- `update_entries_for_directory(path, hashes, last_mtime)` -/
 def updateDir (w : World) (s : St) (path : Str) (o : Opts) : Except Err St :=
   match loadUnregistered w s path with
@@ -527,15 +560,7 @@ def updateDir (w : World) (s : St) (path : Str) (o : Opts) : Except Err St :=
            | .error e => .error e
            | .ok ws =>
              -- entries whose file was not met: removed (unless IGNORE)
-             foldE (fun (st : St) (kv : Str × Str × Nat) =>
-               let (_, mp', id) := kv
-               match st.val id with
-               | none => .error (.internal .other)
-               | some (.ignore _) => .ok st
-               | some fe =>
-                 match st.removeFirstEq mp' fe with
-                 | none => .error (.internal .valueError)
-                 | some st' => .ok (st'.markUpdated mp')) ws.st ws.ud)
+             foldE updRemoveStep ws.st ws.ud)
         | some _, some .absent => .error (.os .ENOENT)
         | some _, some (.fault k) => .error (.os (.code k))
         | some _, some _ => .error (.os .ENOTDIR)
